@@ -120,6 +120,16 @@ def edits():
     out.append(("inner_length:view", wrap_main(["var m: [2][3]i32 = [[1, 2, 3], [4, 5, 6]];", "var r: i32 = corner(m);"], pre=mat), {512}))
     out.append(("inner_length:pointer", wrap_main(["var m: [2][3]i32 = [[1, 2, 3], [4, 5, 6]];", "poke(&m);"], pre=mat), {512, 513}))
     out.append(("inner_length:element_type", wrap_main(["var m: [2][4]i64 = [[1, 2, 3, 4], [5, 6, 7, 8]];", "var r: i32 = corner(m);"], pre=mat), {512}))
+    # arrays handed to a view or a slice pointer of another element type (the only documented alias is char8/u8 in strings)
+    for a in PRIMS:
+        for b in PRIMS:
+            if a == b or {a, b} == {"char8", "u8"}:
+                continue
+            arr = "var arr: [2]%s = [%s, %s];" % (b, lit_for(b), lit_for(b))
+            out.append(("view_arg:%s:%s" % (a, b), wrap_main([arr, "f(arr);"], pre="fn f(x: []%s)\n{\n}\n" % a), {512}))
+            out.append(("slice_pointer_arg:%s:%s" % (a, b), wrap_main([arr, "f(&arr);"], pre="fn f(x: &[]%s)\n{\n}\n" % a), {512, 513}))
+            out.append(("view_of_literal_arg:%s:%s" % (a, b), wrap_main(["var b: %s = %s;" % (b, lit_for(b)), "f([b, b]);"],
+                                                                          pre="fn f(x: []%s)\n{\n}\n" % a), {512, 504, 500, 551}))
     # argument count, including the empty argument list, in expression and statement position
     for nparams in (1, 2, 3):
         params = ", ".join("p%d: i32" % k for k in range(nparams))
